@@ -59,7 +59,14 @@ func (r *Rec) String() string {
 		}
 		sb.WriteString(n)
 		sb.WriteString("=")
-		sb.WriteString(r.fields[n].String())
+		// Fields are printed shallowly: a record may be part of a cycle and
+		// String() has no way to detect that (nor may it write any state: records are shared between threads in C05).
+		switch f := r.fields[n].(type) {
+		case starlark.Int, starlark.String, starlark.Bool, starlark.NoneType, starlark.Float:
+			sb.WriteString(f.String())
+		default:
+			fmt.Fprintf(&sb, "<%s>", f.Type())
+		}
 	}
 	sb.WriteString(")")
 	return sb.String()
